@@ -29,6 +29,13 @@ type PropConfig struct {
 	Assumptions []string          `json:"assumptions"`
 	Bounded     []json.RawMessage `json:"bounded,omitempty"`
 	Expect      []string          `json:"expect_obligations,omitempty"` // obligation names that must exist (vacuity guard)
+	// Labels restricts, per function, the labelled clauses that belong to this property (a function
+	// may serve several properties); absent = all. Preconditions of callees, invariants, frames and
+	// safety obligations of a listed function always count.
+	Labels    map[string][]string `json:"labels,omitempty"`
+	Claimed   *bool               `json:"claimed,omitempty"`
+	LevelText string              `json:"level_text,omitempty"`
+	LevelNote string              `json:"level_note,omitempty"`
 }
 
 func (kf KnownFinding) covers(obligation string) bool {
